@@ -51,6 +51,16 @@ class _MemBytes(io.BytesIO):
         super().close()
 
 
+class _StageSink:
+    """dict-like target of a staged write: closing the handle records the bytes."""
+
+    def __init__(self, stage, sid, key):
+        self.stage, self.sid, self.key = stage, sid, key
+
+    def __setitem__(self, filename, data):
+        self.stage.append(('write', self.sid, self.key, filename, data))
+
+
 class MemStorage(Storage):
     """Dict-backed storage with LocalStorage's observable semantics: a key
     exists as soon as a file handle was opened for it."""
@@ -76,9 +86,34 @@ class MemStorage(Storage):
     def exists(self, key: str) -> bool:
         return key in self.d
 
+    # When STAGE is a list (a virtual child process is executing, see vmp.py) mutations are
+    # recorded there instead of being applied; they are applied when the explorer commits them.
+    STAGE = None
+
+    @staticmethod
+    def apply_staged(ops):
+        for op in ops:
+            st = _MEM_REGISTRY.get(op[1])
+            if st is None:
+                continue
+            if op[0] == 'mkdir':
+                st.d.setdefault(op[2], {})
+            elif op[0] == 'trunc':
+                st.d.setdefault(op[2], {})[op[3]] = b''
+            elif op[0] == 'write':
+                st.d.setdefault(op[2], {})[op[3]] = op[4]
+            elif op[0] == 'delete':
+                st.d.pop(op[2], None)
+
     def file_handle(self, key: str, filename: str, *, mode: str = 'r'):
         self.ops.append(('open', key, filename, mode))
-        files = self.d.setdefault(key, {})
+        stage = MemStorage.STAGE
+        if stage is not None and 'w' in mode:
+            stage.append(('mkdir', self.sid, key))
+            stage.append(('trunc', self.sid, key, filename))
+            sink = _StageSink(stage, self.sid, key)
+            return _MemBytes(sink, filename) if 'b' in mode else _MemText(sink, filename)
+        files = self.d.setdefault(key, {}) if stage is None else self.d.get(key, {})
         binary = 'b' in mode
         if 'r' in mode and '+' not in mode:
             if filename not in files:
@@ -92,6 +127,9 @@ class MemStorage(Storage):
 
     def delete(self, key: str) -> None:
         self.ops.append(('delete', key))
+        if MemStorage.STAGE is not None:
+            MemStorage.STAGE.append(('delete', self.sid, key))
+            return
         self.d.pop(key, None)
 
     def snapshot(self):
